@@ -4,6 +4,7 @@ import (
 	"bytes"
 	"encoding/hex"
 	"math/big"
+	"strings"
 
 	"com.tuntun.rangers/node/src/common"
 	crypto "com.tuntun.rangers/node/src/eth_crypto"
@@ -135,3 +136,44 @@ var (
 	c07MarkTo   = []byte{0xa1, 0xa2, 0xa3, 0xa4, 0xa5, 0xa6, 0xa7, 0xa8, 0xa9, 0xaa, 0xab, 0xac, 0xad, 0xae, 0xaf, 0xb0, 0xb1, 0xb2, 0xb3, 0xb4}
 	c07MarkData = []byte{0xc1, 0xc2, 0xc3}
 )
+
+// The declared target must be the signed recipient exactly as ConvertTx renders it: other
+// spellings of the same address, and any target on a contract creation (which has none), are
+// rejected.
+func VerifC07_EthTargetSpelling() {
+	height := uint64(1 << 40)
+	c07Setup(height)
+	chainId := common.GetChainId(height)
+	var m types.Transaction
+	if symx.Choice("creation", 2) == 0 {
+		tx, _ := c07EthHonestC(height, chainId, 2, 1, 0, c07MarkTo, symx.Bytes("payload", 3))
+		m = *tx
+		switch symx.Choice("spelling", 3) {
+		case 0:
+			m.Target = "0x" + strings.ToUpper(tx.Target[2:])
+		case 1:
+			m.Target = tx.Target[2:]
+		case 2:
+			m.Target = "0x00" + tx.Target[2:]
+		}
+		symx.Assume(m.Target != tx.Target)
+	} else {
+		prv, _ := crypto.HexToECDSA(c07KeyA[2:])
+		raw := eth_tx.NewContractCreation(12, big.NewInt(1), 21000, big.NewInt(1000000000), symx.Bytes("payload", 3))
+		signed, err := eth_tx.SignTx(raw, eth_tx.NewEIP155Signer(chainId), prv)
+		if err != nil {
+			panic(err)
+		}
+		enc, _ := rlp.EncodeToBytes(signed)
+		sender, err := eth_tx.Sender(eth_tx.NewEIP155Signer(chainId), signed)
+		if err != nil {
+			panic(err)
+		}
+		tx := eth_tx.ConvertTx(signed, sender, enc)
+		symx.Check(tx.Target == "" && c07Pool.VerifyTransaction(tx, height) == nil, "an honestly signed contract creation is accepted with an empty target")
+		m = *tx
+		m.Target = []string{"0x0000000000000000000000000000000000000000", "0x", "0x" + hex.EncodeToString(symx.Bytes("to2", 20))}[symx.Choice("target", 3)]
+	}
+	symx.Check(c07Pool.VerifyTransaction(&m, height) != nil, "a wrapped transaction whose target is not exactly the signed recipient is rejected")
+	symx.Reach("end")
+}
